@@ -201,6 +201,25 @@ func evalAgainstModel(c *run.Ctx, w *world.World, dir, monitor string) {
 		r.Violate(monitor, monitor+":engine:error", "an engine", cr.Panic+cr.Err, "")
 		return
 	}
+	engines := []*observe.Engine{eng}
+	// the same objects once more through InsertObject, one by one in document order (admin policies arrive in whatever order the
+	// documents have - ascending, descending or shuffled priorities): precedence must not depend on the order of arrival
+	if ins := observe.NewEngine(); true {
+		ok := true
+		for i := range objs {
+			if o := observe.RuntimeObject(&objs[i]); o != nil {
+				if res := ins.Insert(o); res.Panic != "" || res.HasErr {
+					ok = false
+					r.Ev("insert_route_not_built", 1)
+					break
+				}
+			}
+		}
+		if ok {
+			engines = append(engines, ins)
+			r.Ev("insert_route_engines", 1)
+		}
+	}
 	g := c.R("evalports")
 	ports := boundaryPorts(g, w)
 	if len(ports) > 14 {
@@ -219,13 +238,15 @@ func evalAgainstModel(c *run.Ctx, w *world.World, dir, monitor string) {
 			s, d := podNamesOf(&w.Workloads[i])[0], podNamesOf(&w.Workloads[j])[0]
 			for _, pr := range []string{"TCP", "UDP", "SCTP"} {
 				for _, p := range ports {
-					res := eng.Check(s, d, pr, fmt.Sprint(p))
-					r.Ev("eval_queries", 1)
-					if res.Panic != "" || res.HasErr || res.Allowed != mc.Has(pr, p) {
-						nv++
-						if nv <= 2 {
-							r.Violate(monitor, monitor+":pair:disagrees-with-model", fmt.Sprintf("%v (model)", mc.Has(pr, p)), fmt.Sprintf("%v %s%s", res.Allowed, res.Err, firstLines(res.Panic, 3)),
-								fmt.Sprintf("%s => %s %s/%d", s, d, pr, p))
+					for ei, eng := range engines {
+						res := eng.Check(s, d, pr, fmt.Sprint(p))
+						r.Ev("eval_queries", 1)
+						if res.Panic != "" || res.HasErr || res.Allowed != mc.Has(pr, p) {
+							nv++
+							if nv <= 2 {
+								r.Violate(monitor, monitor+":pair:disagrees-with-model", fmt.Sprintf("%v (model)", mc.Has(pr, p)), fmt.Sprintf("%v %s%s", res.Allowed, res.Err, firstLines(res.Panic, 3)),
+									fmt.Sprintf("%s => %s %s/%d (engine route %d: 0 = built from the objects, 1 = filled by InsertObject in document order)", s, d, pr, p, ei))
+							}
 						}
 					}
 				}
